@@ -807,7 +807,7 @@ impl Expr {
                     return Err(EvalErr::Arity(format!("scalar subquery returns {} columns", res.columns.len())));
                 }
                 match res.rows.len() {
-                    0 => Ok(V::Int(0)),
+                    0 => Ok(V::Null),
                     1 => Ok(res.rows[0][0].clone()),
                     _ => Err(EvalErr::ScalarSubqueryRows),
                 }
